@@ -235,12 +235,27 @@ def m_getattr(I, path, args, kwargs):
         r = h(I, path, obj, name, args[2])
         if r is not _MISSING:
             return r
+    if isinstance(obj, SV) and name not in I.sv_attr and name != "__class__" and name not in I.attr_hooks:
+        # an attribute of an opaque object, read with a default: present (an uninterpreted value of the object) or absent
+        from .core import attr_uf, Val, BoolS
+        has = z3.Function(f"hasattr_{name}", Val, BoolS)(obj.t)
+        if path.branch(has):
+            return SV(attr_uf(name)(obj.t))
+        return args[2]
     try:
         return I.getattr(obj, name, path)
     except PyRaise as e:
         if e.exc_cls is AttributeError:
             return args[2]
         raise
+
+
+def m_setattr(I, path, args, kwargs):
+    obj, name, v = args
+    if not isinstance(name, str):
+        raise Unsupported("setattr with symbolic name")
+    I.setattr(obj, name, v, path)       # same as the statement `obj.<name> = v` (frame writes and hooks included)
+    return None
 
 
 def m_hasattr(I, path, args, kwargs):
@@ -341,7 +356,7 @@ def install(I: Interp):
     bm = {
         B.len: m_len, B.isinstance: m_isinstance, B.issubclass: m_issubclass, B.enumerate: m_enumerate,
         B.zip: m_zip, B.tuple: m_tuple, B.list: m_list, B.type: m_type, B.bool: m_bool, B.any: m_any,
-        B.all: m_all, B.getattr: m_getattr, B.hasattr: m_hasattr, B.dict: m_dict, B.set: m_set,
+        B.all: m_all, B.getattr: m_getattr, B.setattr: m_setattr, B.hasattr: m_hasattr, B.dict: m_dict, B.set: m_set,
         B.range: m_range, typing.cast: m_cast, B.repr: m_repr, B.next: m_next, B.divmod: m_divmod,
         ft.cache: m_identity_decorator, ft.lru_cache: m_identity_decorator, ft.wraps: None,
         dataclasses.dataclass: m_identity_decorator,
